@@ -663,7 +663,7 @@ fn cfg_strategy() -> impl Strategy<Value = u8> {
     prop_oneof![13 => Just(0u8), 1 => Just(1u8), 1 => Just(2u8), 1 => Just(3u8)]
 }
 
-fn mutated_corpus() -> impl Strategy<Value = SrcCase> {
+pub fn mutated_corpus() -> impl Strategy<Value = SrcCase> {
     let count = prop_oneof![1 => Just(0usize), 6 => Just(1usize), 5 => Just(2usize), 3 => Just(3usize), 2 => 4usize..=6];
     let muts = count.prop_flat_map(|n| proptest::collection::vec(mutation(), n..=n));
     (any::<u32>(), muts, cfg_strategy()).prop_map(|(i, muts, cfg)| {
@@ -689,7 +689,7 @@ const SEGS: &[&str] = &[
 ];
 const RHS: &[&str] = &["2", "\"é\"", "to_int(.q)", "{ \"日\": 1 }", "upcase(\"é\")"];
 
-fn assignment_targets() -> impl Strategy<Value = SrcCase> {
+pub fn assignment_targets() -> impl Strategy<Value = SrcCase> {
     (
         prop_oneof![3 => Just(usize::MAX), 2 => 0..PREFIXES.len()],
         0..ROOTS.len(),
@@ -735,7 +735,7 @@ fn code_label(code: usize) -> &'static str {
     g.entry(code).or_insert_with(|| Box::leak(format!("E{code:03}").into_boxed_str()))
 }
 
-fn external(cfg: u8) -> ExternalEnv {
+pub fn external(cfg: u8) -> ExternalEnv {
     if cfg == 3 {
         ExternalEnv::new_with_kind(Kind::integer(), Kind::object(Collection::empty()))
     } else {
@@ -743,7 +743,7 @@ fn external(cfg: u8) -> ExternalEnv {
     }
 }
 
-fn config(cfg: u8) -> CompileConfig {
+pub fn config(cfg: u8) -> CompileConfig {
     let mut c = CompileConfig::default();
     match cfg {
         1 => c.set_read_only(),
